@@ -2537,8 +2537,12 @@ def _remove_file_with_readonly_handling(path: bytes) -> None:
 
 def _remove_empty_parents(path: bytes, stop_at: bytes) -> None:
     """Remove empty parent directories up to stop_at."""
+    # Never at or above stop_at, however it is spelled: a trailing separator
+    # (core.worktree = /srv/site/) must not let the walk pass the root.
+    stop_at = os.path.normpath(stop_at)
+    below = stop_at.rstrip(os.sep.encode()) + os.sep.encode()
     parent = os.path.dirname(path)
-    while parent and parent != stop_at:
+    while parent and os.path.normpath(parent).startswith(below):
         try:
             os.rmdir(parent)
             parent = os.path.dirname(parent)
